@@ -14,6 +14,9 @@ From RV Require Import Proofs.WriteNum.
 From RV Require Import Gen.XmlEscape.
 From RV Require Import Model.XmlEscape.
 From RV Require Import Proofs.XmlEscape.
+From RV Require Import Gen.NumParse.
+From RV Require Import Model.NumParse.
+From RV Require Import Proofs.NumParse.
 From Coq Require Import NArith ZArith QArith Qabs List Bool.
 Import ListNotations.
 Local Open Scope N_scope.
@@ -184,3 +187,30 @@ Example C07_nv_escape :
   escape_attr false [113; 34; 117; 39; 111] = [113; 38; 113; 117; 111; 116; 59; 117; 39; 111] /\
   escape_attr true [113; 34; 117; 39; 111] = [113; 34; 117; 38; 97; 112; 111; 115; 59; 111].
 Proof. vm_compute. auto. Qed.
+
+(* ---------------------------------------------------------------- numbers: from the attribute text to write_num (second pass)
+   `impl FromValue for f32`: svgtypes::Number::from_str(value).ok() followed by the source-derived steps of Gen/NumParse.v
+   (today: cast to f32, THEN the is_finite filter).  For EVERY f64 the text can denote - huge, infinite, NaN - an accepted value
+   is a finite number below the f32 overflow threshold .. *)
+Theorem C07_parsed_f32_finite : forall v x,
+  parse_f32 v = Some x -> exists q, x = Fin q /\ (Qabs q < f32_overflow)%Q.
+Proof. exact parse_f32_finite. Qed.
+Print Assumptions C07_parsed_f32_finite.
+
+(* .. so write_num (Model/WriteNum.v, over the rationals = finite by typing) applies to it and never panics *)
+Theorem C07_parsed_number_written : forall p v x,
+  (0 <= p <= 255)%Z -> parse_f32 v = Some x -> exists q, x = Fin q /\ write_num p q <> WPanic.
+Proof.
+  intros p v x Hp H. destruct (parse_f32_finite v x H) as (q & -> & _). exists q. split; [reflexivity|].
+  apply write_num_total. apply Hp.
+Qed.
+Print Assumptions C07_parsed_number_written.
+
+(* the order matters (seeded C07-13 moved the filter before the cast): then 1e40 is accepted as +infinity *)
+Example C07_filter_before_cast_refuted :
+  run_steps [PFilterFinite; PCast] (Fin (inject_Z (10 ^ 40))) false = Some (Inf false, true).
+Proof. exact filter_before_cast_refuted. Qed.
+Example C07_nv_parse_f32 :
+  parse_f32 (Fin (3 # 2)) = Some (Fin (3 # 2)) /\ parse_f32 (Fin (inject_Z (10 ^ 40))) = None /\
+  parse_f32 (Inf true) = None /\ parse_f32 NaN = None.
+Proof. exact parse_f32_accepts. Qed.
